@@ -26,6 +26,24 @@ def solRun : P String := do
   let s := solve t0 tf mn mx propose stopAt fuel
   pure s!"{s.steps.length} {bstr s.stop} {fout s.cur} {fout s.dtmax} {flist s.times.reverse} {flist s.dts.reverse}"
 
+/-- sol.runx t0 tf minFrac maxFrac proposals stops fuel E|R x0 → as `sol.run`, then the state of an f ≡ 1
+model (explicit Euler / Runge-Kutta iterator of the model, scalar state starting at x0) handed to postProcess after
+every accepted step (oldest first): the loop WITH the state carried along (`runXs`) -/
+def solRunX : P String := do
+  let t0 ← flt; let tf ← flt; let mn ← flt; let mx ← flt
+  let props ← flts; let stops ← lst bool; let fuel ← nat
+  let k ← tok; let x0 ← flt
+  let pa := props.toArray; let sa := stops.toArray
+  let propose : List Float → Dt Float := fun h =>
+    if pa.size == 0 then .fin 0.0 else toDt (pa.getD (h.length % pa.size) 0.0)
+  let stopAt : List Float → Bool := fun h => sa.getD (h.length - 1) false
+  let one : Float → Float → Float := fun _ _ => 1.0
+  let iter ← (if k == "E" then pure (fun dt t x => (eulerIter scalarOps one dt t x).xnew)
+              else if k == "R" then pure (fun dt t x => (rk4Iter scalarOps one dt t x).xnew) else failure)
+  let r := runXs tf (mn * (tf - t0)) propose stopAt iter fuel ((initSt t0 tf mx, x0), [])
+  let s := r.1.1
+  pure s!"{s.steps.length} {bstr s.stop} {fout s.cur} {fout s.dtmax} {flist s.times.reverse} {flist s.dts.reverse} {flist r.2.reverse}"
+
 def item : P (Item Float) := do
   let k ← tok
   if k == "S" then
@@ -73,9 +91,26 @@ def coupUn : P String := do
   let f ← flts; let ss ← lst nat; let Xs ← lst state
   pure (encStates (unflattenC f ss Xs))
 
+def encSizes : Option (List Nat) → String
+  | none => "N"
+  | some ss => " ".intercalate (toString ss.length :: ss.map toString)
+
+/-- flat.hist K (states(list))^K → per history entry, on ONE Coupler object that never flattened before:
+sizeRef after flattenX, the flat vector, the delivered states (unflattenX by the same states) -/
+def hist : P String := do
+  let h ← lst (lst state)
+  let rec go (c : Coupler) : List (List (List (Item Float))) → List String
+    | [] => []
+    | Xs :: rest =>
+      let r := c.flattenX Xs
+      s!"{encSizes r.2.sizeRef} {flist r.1} {encStates (r.2.unflattenX r.1 Xs)}" :: go r.2 rest
+  pure (" ".intercalate (toString h.length :: go Coupler.new h))
+
 def handle (verb : String) : Option (P String) :=
   match verb with
   | "sol.run" => some solRun
+  | "sol.runx" => some solRunX
+  | "flat.hist" => some hist
   | "flat.rt" => some rt
   | "flat.un" => some un
   | "flat.c" => some coup
